@@ -343,6 +343,21 @@ def raceAppendNewTerm (cfg : Cfg) (synced : Bool) (w : World) (l f : Nat) (id : 
         (setNode w' f { n with log := n.log ++ [e] }, some (.ok h))
       | (_, .error err) => (w2, some (.error err))
 
+/-- an entry of the leader `l` has been appended by the follower `f`, whose sync goroutine has not yet run, when
+    the stream between them breaks; the leader's cursor reconnects and delivers the entry again.
+    `ackOnlySynced` = fact: the follower acknowledges a re-delivered entry at once only when it is among its synced
+    entries (otherwise the sync goroutine acknowledges it after the sync). `some false` = the leader gets an
+    acknowledgement for an entry the follower has not synced; `none` = the follower does not take the entry. -/
+def raceAppendRedeliver (cfg : Cfg) (ackOnlySynced : Bool) (w : World) (l f : Nat) (id : Nat) : World × Option Bool :=
+  let ln0 := getNode w l
+  if ln0.ctrl ≠ .leaderC ∨ ln0.status ≠ .leader ∨ (getNode w f).ctrl ≠ .followerC then (w, none) else
+  let w1 := (write cfg w l id).1
+  let ln := getNode w1 l
+  let fn := getNode w1 f
+  let e : Entry := { term := ln.term, id := id }
+  if fn.log.getLast? ≠ some e ∨ fn.term ≠ ln.term then (w1, none)
+  else (w1, some ackOnlySynced)
+
 /-- a process restart: the controllers are gone, the storage stays -/
 def restart (w : World) (i : Nat) : World :=
   let n := getNode w i
